@@ -428,3 +428,65 @@ def q2d(s1a: int, s1b: int, kfault: int, kind: int) -> str:
 QUERIES.append(
     {"name": "Q2d", "fn": q2d, "shards": {"quick": [{}], "thorough": [{"be": b} for b in ("slurm", "sge", "lsf")]}, "timeout": {"quick": 600, "thorough": 900},
      "bound": "chain of 2, two invocations: the jobs of the first end failed / cancelled / done-but-stale (symbolic), the scheduler rejects the 1st or 2nd submission of the second in one of 3 ways, or none"})
+
+
+# ---------------------------------------------------------------- Q2e a cancelled job makes its target due again, whatever its files look like
+def _q2e(sa, fresh_a, which, be_i):
+    """run (A, B accepted); A's job is pending or running - and may already have (re)written its output; `gwf cancel`
+    of A, of B or of both through the real command; then run.  The plan is the one for each target's latest job:
+    a cancelled job means the target is submitted again, with the right prerequisites."""
+    if not (q.in_range(sa, 2) and q.in_range(which, 3) and q.in_range(be_i, 2)):
+        return q.SKIP
+    be = q.pick(["slurm", "lsf"], be_i)
+    if "be" in q.SHARD and be != q.SHARD["be"]:
+        return q.SKIP
+    st_a = q.pick(["pending", "running"], sa)
+    sel = q.pick([("A",), ("B",), ("A", "B")], which)
+    fresh_a = True if fresh_a else False
+    with q.notrace():
+        pr = Project("chain2", be)
+        pr.add_sources(5)
+        w = pr.w
+        w.install()
+    try:
+        w.concretely(w.run)
+        jobs1 = abst.jobs_by_cmd(w)
+        ids = {j["name"]: j["id"] for j in jobs1}
+        abst.set_state(w, ids["A"], st_a)
+        if fresh_a and st_a == "running":
+            w.file("a", 50, "written by the running job before it was cancelled")
+        w.cancel(sel, True)
+        cancelled = [nm for nm in sel]
+        state = {"A": st_a, "B": "pending"}
+        for nm in cancelled:
+            state[nm] = "cancelled"
+        bstate = [abst.EXPECT[be][state[nm]] for nm in pr.names]
+        stale = [pr.stale_by_files(i) for i in range(pr.n)]
+        cone, st, pre, sub = P.plan(pr.n, pr.deps, stale, bstate, P.endpoints(pr.n, pr.deps))
+        n0 = len(abst.jobs_by_cmd(w))
+        w.run()
+        new = abst.jobs_by_cmd(w)[n0:]
+        if sorted(j["name"] for j in new) != sorted(pr.names[i] for i in sub):
+            return "after cancel %s (A was %s%s) the next run submitted %s, expected %s" % (sel, st_a, ", its output already rewritten" if fresh_a and st_a == "running" else "", [j["name"] for j in new], [pr.names[i] for i in sub])
+        latest = dict(ids)
+        for j in new:
+            i = pr.idx(j["name"])
+            req = sorted(str(latest[pr.names[d]]) for d in pre[i])
+            if sorted(map(str, j["deps"])) != req:
+                return "after cancel %s: %s submitted with prerequisites %s, expected %s" % (sel, j["name"], j["deps"], req)
+            latest[j["name"]] = j["id"]
+        return ""
+    finally:
+        w.uninstall()
+
+
+def q2e(sa: int, fresh_a: bool, which: int, be_i: int) -> str:
+    """
+    post: _ == ""
+    """
+    return q.run(_q2e, (sa, fresh_a, which, be_i))
+
+
+QUERIES.append(
+    {"name": "Q2e", "fn": q2e, "shards": [{"be": "slurm"}, {"be": "lsf"}], "timeout": 600,
+     "bound": "chain of 2: run, A's job pending or running (its output possibly rewritten already), `gwf cancel` of A / B / both through the real command, run; Slurm and LSF"})
